@@ -80,6 +80,9 @@ def lean_ty(t) -> str:
 	if k == 'kspec': return 'Py.KSpec'
 	if k == 'str': return 'List Char'
 	if k in ('db', 'obj'): return 'Unit'
+	if k == 'arr': return 'Py.Arr'
+	if k == 'dtype': return 'Py.DType'
+	if k == 'score': return 'UInt32'
 	if k == 'char': return 'Char'
 	if k == 'msg': return 'String'
 	if k == 'numinf': return 'Option Nat'
@@ -99,6 +102,9 @@ def default(t) -> str:
 	if k == 'byte': return '(0 : UInt8)'
 	if k == 'kspec': return '(default : Py.KSpec)'
 	if k in ('db', 'obj'): return '()'
+	if k == 'arr': return '(default : Py.Arr)'
+	if k == 'dtype': return '(default : Py.DType)'
+	if k == 'score': return '(0 : UInt32)'
 	if k == 'char': return "' '"
 	if k == 'msg': return '""'
 	if k == 'rec': return f'(default : Py.{t[1]})'
@@ -215,6 +221,14 @@ FUNCS = [
 	     methods={('obj', 'submit'): ('s.file', NUM, [], ['calc_file_signature', 'kspec', 'file']),
 	              ('obj', 'increment'): ('()', ('obj',), [], None),
 	              ('num', 'result'): ('((R.getD {self} none).getD 0)', NUM, [('(R.getD {self} none).isNone', 'Other')], [])}),
+	# --- metric.py: the Python wrappers of the distance kernels
+	dict(name='cast_sigs_array', file='metric.py', qual='_cast_sigs_array', module='PyMetric', env=[], dtype_as='record',
+	     params=[('arr', ('arr',))], ret=('arr',)),
+	dict(name='jaccard', file='metric.py', qual='jaccard', module='PyMetric', env=[], dtype_as='record',
+	     params=[('coords1', ('arr',)), ('coords2', ('arr',))], ret=('score',)),
+	dict(name='jaccarddist', file='metric.py', qual='jaccarddist', module='PyMetric', env=[], dtype_as='record',
+	     params=[('coords1', ('arr',)), ('coords2', ('arr',))], ret=('score',)),
+	dict(name='num_pairs', file='metric.py', qual='num_pairs', module='PyMetric', env=[], params=[('n', INT)], ret=INT),
 	dict(name='check_index', file='util/indexing.py', qual='AdvancedIndexingMixin._check_index', module='PyCheckIndex',
 	     env=[], params=[('self_len', INT), ('i', INT)], ret=INT, self_len='self_len'),
 ]
@@ -383,6 +397,10 @@ class Fn:
 			f = dict(RECORDS[t[1]]['fields'])
 			if a not in f: raise Untranslatable(f'attribute .{a} of {t[1]}')
 			return E(f'{o.lean}.{mangle(a)}', f[a], o.raises)
+		if t == ('arr',) and a == 'dtype':
+			return E(f'{o.lean}.dtype', ('dtype',), o.raises)
+		if t == ('dtype',) and a == 'itemsize':
+			return E(f'(({o.lean}.size : Nat) : Int)', INT, o.raises)
 		if t == ('db',) and a == 'genomes':
 			return E('(List.range G.length)', LIST(GENOME), o.raises)
 		if t == TAXON and a == 'distance_threshold':
@@ -755,6 +773,13 @@ class Fn:
 			a = self.value(args[0])
 			if a.ty != STR: raise Untranslatable('os.path.basename of ' + str(a.ty))
 			return E(f'(GambitV.basename {a.lean})', STR, a.raises)
+		if isinstance(f, ast.Attribute) and isinstance(f.value, ast.Name) and f.value.id == '_cmetric' and f.attr in ('jaccard', 'jaccarddist') and len(args) == 2 and not kw:
+			# the compiled kernels (tied to the model by Tie.Metric): fused over the three unsigned types, compared as zero-extended values
+			a, b = self.value(args[0]), self.value(args[1])
+			if a.ty != ('arr',) or b.ty != ('arr',): raise Untranslatable(f'_cmetric.{f.attr} of {a.ty}, {b.ty}')
+			fn = 'GambitV.jaccardBits' if f.attr == 'jaccarddist' else 'GambitV.jaccardIndexBits'
+			return E(f'({fn} {a.lean}.natVals {b.lean}.natVals)', ('score',),
+			         a.raises + b.raises + [(f'(!({a.lean}.dtype.kernelOk && {b.lean}.dtype.kernelOk))', 'TypeError')])
 		if isinstance(f, ast.Attribute) and isinstance(f.value, ast.Name) and f.value.id in ('ckmers', 'np', 'os'):
 			mod, m = f.value.id, f.attr
 			if mod == 'os' and m == 'fspath' and len(args) == 1 and not kw:
@@ -779,6 +804,16 @@ class Fn:
 				fn = 'GambitV.kmerToIndex' if m == 'kmer_to_index' else 'GambitV.kmerToIndexRc'
 				return E(f'((match {fn} {a.lean} with | .ok i => i | .error _ => 0 : Nat) : Int)', INT,
 				         a.raises + [(f'(match {fn} {a.lean} with | .ok _ => false | .error _ => true)', 'ValueError')])
+			if mod == 'np' and m == 'dtype' and len(args) == 1 and self.d.get('dtype_as') == 'record':
+				a0 = args[0]
+				if isinstance(a0, ast.Constant) and isinstance(a0.value, str) and len(a0.value) == 2 and a0.value[0] in 'ui' and a0.value[1] in '1248':
+					return E(f"({{ kind := '{a0.value[0]}', size := {a0.value[1]}, native := true }} : Py.DType)", ('dtype',))
+				if (isinstance(a0, ast.JoinedStr) and len(a0.values) == 2 and isinstance(a0.values[0], ast.Constant) and a0.values[0].value in ('u', 'i')
+						and isinstance(a0.values[1], ast.FormattedValue) and a0.values[1].format_spec is None and a0.values[1].conversion == -1):
+					sz = self.value(a0.values[1].value)
+					if sz.ty != INT: raise Untranslatable('np.dtype(f"…{x}") with a non-integer x')
+					return E(f"({{ kind := '{a0.values[0].value}', size := ({sz.lean}).toNat, native := true }} : Py.DType)", ('dtype',), sz.raises)
+				raise Untranslatable(f'np.dtype({ast.unparse(a0)})')
 			if mod == 'np' and m == 'dtype' and len(args) == 1 and isinstance(args[0], ast.Constant) and args[0].value in ('u1', 'u2', 'u4', 'u8'):
 				# an unsigned NumPy type is represented by its item size in bytes
 				return E(f'({int(args[0].value[1])} : Int)', INT)
@@ -814,6 +849,10 @@ class Fn:
 			if o.ty == BYTES and m == 'upper' and not args: return E(f'(GambitV.upper {o.lean})', BYTES, o.raises)
 			if o.ty == BYTES and m == 'lower' and not args: return E(f'(Py.lower {o.lean})', BYTES, o.raises)
 			if o.ty[0] == 'dict' and m == 'keys' and not args: return E(f'(({o.lean}).map (·.1))', LIST(o.ty[1]), o.raises)
+			if o.ty == ('arr',) and m == 'view' and len(args) == 1 and not kw:
+				a = self.value(args[0])
+				if a.ty != ('dtype',): raise Untranslatable('view() with something other than a dtype')
+				return E(f'(Py.Arr.view {o.lean} {a.lean})', ('arr',), o.raises + a.raises + [(f'(decide ({o.lean}.dtype.size ≠ {a.lean}.size))', 'Other')])
 			if o.ty[0] == 'dict' and m == 'get' and len(args) == 1 and not kw:
 				k = self.coerce(self.value(args[0]), o.ty[1], 'dict key')
 				return E(f'(Py.dictGet? {o.lean} {k.lean})', OPT(o.ty[2]), o.raises + k.raises)
@@ -1277,6 +1316,20 @@ def module_consts(tree: ast.Module) -> dict:
 	for st in tree.body:
 		if isinstance(st, ast.Assign) and len(st.targets) == 1 and isinstance(st.targets[0], ast.Name) and lit(st.value):
 			out[st.targets[0].id] = st.value
+		elif isinstance(st, ast.Assign) and len(st.targets) == 1 and isinstance(st.targets[0], ast.Name) and isinstance(st.value, ast.ListComp):
+			# [np.dtype(f'u{s}') for s in [2, 4, 8]]  ->  [np.dtype('u2'), np.dtype('u4'), np.dtype('u8')]
+			c = st.value
+			g = c.generators[0] if len(c.generators) == 1 else None
+			e = c.elt
+			if (g is not None and not g.ifs and isinstance(g.target, ast.Name) and isinstance(g.iter, (ast.List, ast.Tuple))
+					and all(isinstance(x, ast.Constant) and isinstance(x.value, int) for x in g.iter.elts)
+					and isinstance(e, ast.Call) and ast.unparse(e.func) == 'np.dtype' and len(e.args) == 1 and isinstance(e.args[0], ast.JoinedStr)
+					and len(e.args[0].values) == 2 and isinstance(e.args[0].values[0], ast.Constant)
+					and isinstance(e.args[0].values[1], ast.FormattedValue) and isinstance(e.args[0].values[1].value, ast.Name)
+					and e.args[0].values[1].value.id == g.target.id):
+				pre = e.args[0].values[0].value
+				out[st.targets[0].id] = ast.fix_missing_locations(ast.copy_location(ast.List(elts=[
+					ast.Call(func=e.func, args=[ast.Constant(value=f'{pre}{x.value}')], keywords=[]) for x in g.iter.elts], ctx=ast.Load()), st))
 	return out
 
 
